@@ -161,8 +161,11 @@ class Effects:
             if isinstance(n, (ast.For, ast.comprehension)):
                 names = [x.id for x in ast.walk(n.target) if isinstance(x, ast.Name)]
                 cands = {}
-                if isinstance(n.iter, (ast.Tuple, ast.List)):
-                    for row in n.iter.elts:
+                it = n.iter
+                if isinstance(it, ast.Name) and counts.get(it.id) == 1 and isinstance(val.get(it.id), (ast.Tuple, ast.List)):
+                    it = val[it.id]     # the table was given a name first
+                if isinstance(it, (ast.Tuple, ast.List)):
+                    for row in it.elts:
                         if isinstance(n.target, ast.Name) and isinstance(row, ast.Attribute):
                             cands.setdefault(n.target.id, []).append(row)
                         elif isinstance(n.target, (ast.Tuple, ast.List)) and isinstance(row, (ast.Tuple, ast.List)) and len(row.elts) == len(n.target.elts):
